@@ -181,6 +181,7 @@ type Exec struct {
 	noSafety bool
 	instDone map[string]bool
 	recDepth map[string]int
+	instDepth int // how deep contracts of applications inside instantiated contracts are unfolded
 	recDone  map[string]bool
 	recPending map[string]bool
 	recName  map[string]string
@@ -892,7 +893,9 @@ func (x *Exec) runBlock(st *State, b *ssa.BasicBlock) {
 			}
 			st.assume(x.wfA(st, v.T, phi.Type()))
 		}
-		for h, s := range x.heapsWrittenIn(body) {
+		written := x.heapsWrittenIn(body)
+		for _, h := range sortedKeys(written) {
+			s := written[h]
 			hs := heapSort(h, s)
 			nh := x.fresh("Hl!"+h, hs)
 			st.heaps[h] = nh
